@@ -9,6 +9,7 @@ mod ops;
 mod ops2;
 mod ops3;
 mod ops4;
+mod ops5;
 
 fn main() {
     std::panic::set_hook(Box::new(|_| {}));
